@@ -354,6 +354,13 @@ func checkC10(c *Check) {
 			c.Fail("R10.1", r.g.name+"#floor", "", "offset store, literal copies and length bytes of "+r.g.name+" are resolved", fmt.Sprintf("only %d obligations recorded", n))
 		}
 	}
+	if archSubst == "" {
+		// stale table entries of an earlier call would be taken for positions of this one (offsets
+		// before the start, matches beyond the end): the tables are reset before they are read
+		c.RuleDoc["R10.6"] = "match tables are reset before they are read (fast: validity bitmap; HC: needsReset set before anything can fail)"
+		ruleFastReset(c, p, "R10.6")
+		ruleHCReset(c, p, "R10.6")
+	}
 }
 
 func checkC11(c *Check) {
@@ -379,6 +386,11 @@ func checkC11(c *Check) {
 		if n < 8 {
 			c.Fail("R11.3", r.g.name+"#floor", "", "destination accesses of "+r.g.name+" are resolved", fmt.Sprintf("only %d obligations recorded", n))
 		}
+	}
+	if archSubst == "" {
+		c.RuleDoc["R11.9"] = "match tables are reset before they are read: a failed call does not poison the next one"
+		ruleFastReset(c, p, "R11.9")
+		ruleHCReset(c, p, "R11.9")
 	}
 	c.RuleDoc["R11.6"] = "public entry points forward src and dst unchanged"
 	c.RuleDoc["R11.7"] = "CompressBlockBound(n) >= n + n/255 + 16"
